@@ -45,6 +45,10 @@ func (impl Implementation) Dorml2(side blas.Side, trans blas.Transpose, m, n, k 
 		panic(badLdA)
 	case !left && lda < max(1, n):
 		panic(badLdA)
+	case ldc < n:
+		// The leading dimension is not compared with max(1,n): existing
+		// callers pass ldc == 0 for a matrix without columns.
+		panic(badLdC)
 	}
 
 	// Quick return if possible.
